@@ -1,6 +1,6 @@
 """C17 - batching keeps order and exact batch sizes."""
 from . import register
-from ..census import leaves_of
+from ..census import leaves_of, units_of, descendants_of
 
 
 def uid(p):
@@ -13,8 +13,10 @@ class Batching:
         self.ctx = ctx
         self.m = ctx.model
         self.batchers = {i['id']: i.get('size') for i in ctx.spec['items'] if i['kind'] == 'batcher'}
-        self.arrived = {b: [] for b in self.batchers}       # leaf uids in arrival order
-        self.emitted = {b: [] for b in self.batchers}       # leaf uids in emission order
+        # (units: the direct members of a batch - themselves batches when pallets of boxes travel - or the part itself;
+        #  a batcher takes its input apart and builds its output unit by unit)
+        self.arrived = {b: [] for b in self.batchers}       # unit uids in arrival order
+        self.emitted = {b: [] for b in self.batchers}       # unit uids in emission order
         self.prev_out = {b: (None, []) for b in self.batchers}
         self.n_recv = 0
         self.outputs = 0
@@ -29,6 +31,7 @@ class Batching:
         prev_cen = ctx.prev_census
         while self.n_recv < len(log.receives):
             t, did, part, ct, ser, lvs, val = log.receives[self.n_recv]
+            lvs = log.receive_units[self.n_recv]
             self.n_recv += 1
             if did in self.batchers:
                 if prev_cen is not None:
@@ -52,7 +55,8 @@ class Batching:
                 ctx.count('batcher_outputs')
                 is_batch = getattr(pobj, 'parts', None) is not None
                 if size is None:
-                    if is_batch:
+                    # (a box that arrived inside a pallet leaves a single-part batcher as it is)
+                    if is_batch and uid(pobj) not in self.arrived[b]:
                         ctx.report('batch_in_single_mode', f'batcher {b} (single-part mode) emitted a Batch '
                                    f'{pobj.name}')
                         return
@@ -62,15 +66,16 @@ class Batching:
                                    f'{len(pleaves)} parts')
                         return
                 self.emitted[b].extend(pleaves)
-            cur_leaves = [uid(x) for x in leaves_of(out)] if out is not None else []
+            # (in single-part mode the output IS the unit - possibly an inner batch -, else a batch built of units)
+            cur_leaves = [uid(x) for x in (units_of(out) if size is not None else [out])] if out is not None else []
             self.prev_out[b] = (out, cur_leaves)
             if not hasattr(dev, '_in_progress_batch'):
                 ctx.count('batcher_internals_not_visible')
                 continue
             wip = dev._in_progress_batch
-            wip_leaves = [uid(x) for x in leaves_of(wip)] if wip is not None else []
+            wip_leaves = [uid(x) for x in units_of(wip)] if wip is not None else []
             inp = dev._part
-            in_leaves = [uid(x) for x in leaves_of(inp)] if inp is not None else []
+            in_leaves = [uid(x) for x in units_of(inp)] if inp is not None else []
             if inp is not None and getattr(inp, 'parts', None) is not None and not in_leaves:
                 ctx.report('empty_input_retained', f'batcher {b} keeps the completely unpacked (empty) input batch '
                            f'{inp.name} in its input slot, so it will never accept again')
@@ -116,7 +121,7 @@ class Batching:
                     if parts is None:
                         continue
                     h = top._routing_history
-                    for p in parts:
+                    for p in descendants_of(top):
                         ph = p._routing_history
                         # every update of the batch's history must have been applied to the part as it is:
                         # what the part's history was when it joined stays its prefix, the rest is the batch's
@@ -146,6 +151,8 @@ class Batching:
                                        f'{[d.name for d in ph]}')
                             return
                     ctx.count('batch_history_checks')
+                    if any(getattr(q, 'parts', None) is not None for q in parts):
+                        ctx.count('nested_batch_history_checks')
 
     def features(self):
         # an input batch split across two output batches: arrivals not aligned with emissions
